@@ -19,6 +19,7 @@ Integ(b) == Ad("integ", 0, 0, 0, b)
 TimeC(steps, off, ip, ins) == [kind |-> "time", steps |-> steps, off |-> off, ip |-> ip, ins |-> ins, u |-> "m", ws |-> FALSE]
 TimeCU(steps, off, u) == [kind |-> "time", steps |-> steps, off |-> off, ip |-> FALSE, ins |-> <<>>, u |-> u, ws |-> FALSE]
 PullC(ins) == [kind |-> "pull", steps |-> <<1>>, off |-> 0, ip |-> FALSE, ins |-> ins, u |-> "m", ws |-> FALSE]
+SinkC(ins) == [kind |-> "sink", steps |-> <<1>>, off |-> 0, ip |-> FALSE, ins |-> ins, u |-> "m", ws |-> FALSE]
 (* finam's WeightedSum merger: inputs value1, weight1, value2, weight2; pulls them initially *)
 WSumC(ins) == [kind |-> "pull", steps |-> <<1>>, off |-> 0, ip |-> TRUE, ins |-> ins, u |-> "m", ws |-> TRUE]
 Lk(src, chain) == [src |-> src, chain |-> chain]
@@ -224,6 +225,14 @@ Ring2Tail(u) ==
      sa \in Steps1, sb \in Steps1, st \in {<<1>>, <<2>>, <<5>>}, da \in {0, 2, 4, 6}, va \in 1..3, first \in BOOLEAN,
      ord \in Perms3}
 
+(* growth beyond the listed properties: push-based consumers (CallbackInput) next to a       *)
+(* time-stepped reader of the same output, directly and behind adapters                      *)
+SinkFan(u) ==
+  {MkCfg(<<TimeC(sp, op, FALSE, <<>>), TimeC(sc, 0, ip, <<Lk(1, c1)>>), SinkC(<<Lk(1, c2)>>)>>,
+         ord, 6, "dag", "sinkfan") :
+     sp \in StepSeqsS, op \in {0, 1}, sc \in Steps1 \cup {<<5>>}, ip \in BOOLEAN,
+     c1 \in ChainsUpTo1(AtomsS), c2 \in ChainsUpTo2({Pass, Fix(1), Fix(3), Buf("linear"), Buf("next")}), ord \in Perms3}
+
 (* cycles broken by dependency-breaking / pull-counting adapters *)
 RingBreak(u) ==
   {MkCfg(<<TimeC(sa, 0, FALSE, <<Lk(2, ca)>>), TimeC(sb, ob, FALSE, <<Lk(1, cb)>>)>>,
@@ -257,10 +266,11 @@ CfgSpace(f) ==
     [] f = "pulltwice"  -> PullTwice(0)
     [] f = "fanoutshared" -> FanOutShared(0)
     [] f = "repeatinteg" -> RepeatInteg(0)
+    [] f = "sinkfan"    -> SinkFan(0)
     [] f = "ring2tail"  -> Ring2Tail(0)
 
 AllFamilies == {"pair", "pairL", "pairXL", "pair3", "chain3t", "chain3p", "fanin2", "fanin1",
                 "fanout", "pullfanout", "diamondt", "diamondp", "pullchain2", "ring2", "ring3",
-                "ring4", "pullring", "pullringtail", "ringbreak", "wsum", "pulltwice", "ring2tail", "fanoutshared", "repeatinteg"}
+                "ring4", "pullring", "pullringtail", "ringbreak", "wsum", "pulltwice", "ring2tail", "fanoutshared", "repeatinteg", "sinkfan"}
 
 =============================================================================
